@@ -21,7 +21,7 @@ ANCHOR_FUNCS = [("mofun/mofun.py", "replace_pattern_in_structure")]
 REQUIRED_LINES = [("mofun/mofun.py", "raise AtomsShouldNotBeDeletedTwice()"), ("mofun/mofun.py", "to_delete |= set(to_delete_linker)")]
 JOBS = {"quick": 4, "thorough": 16}
 TOPOLOGIES = ["chain", "star", "ring", "corner_units", "homo_chain"]
-REPLS = ["keep_first_replace_rest", "keep_rest_replace_first", "substitute_all", "identical", "empty", "larger_keep_first", "keep_last_only"]
+REPLS = ["keep_first_replace_rest", "keep_rest_replace_first", "substitute_all", "identical", "empty", "larger_keep_first", "keep_last_only", "nudge_first_replace_rest", "nudge_rest_replace_first"]
 
 
 def cases(tier, seed):
@@ -125,6 +125,20 @@ def make_repl(rng, pat, kind):
         pos = [p.copy() for p in ppos]
     elif kind == "keep_last_only":
         els, pos = [pels[-1]], [ppos[-1].copy()]
+    elif kind in ("nudge_first_replace_rest", "nudge_rest_replace_first"):
+        # as keep_*, but the "kept" atoms are displaced by a small, clearly non-zero amount: same element, other coordinates,
+        # so they are not common to both patterns and every selected match removes its own
+        mag = replcase.NUDGES[int(rng.integers(len(replcase.NUDGES)))]
+        v = rng.normal(size=3) if rng.integers(2) else np.array([1.0, 1.0, 1.0]) * rng.choice([-1, 1], 3)
+        v = v / np.linalg.norm(v) * mag
+        pos = [p.copy() for p in ppos]
+        if kind == "nudge_first_replace_rest":
+            els = [pels[0]] + [sub[e] for e in pels[1:]]
+            pos[0] = pos[0] + v
+        else:
+            els = [sub[pels[0]]] + pels[1:]
+            for i in range(1, n):
+                pos[i] = pos[i] + v
     order = rng.permutation(len(els))
     return {"kind": kind, "elements": [els[i] for i in order], "positions": np.array([pos[i] for i in order], float).reshape(-1, 3)}
 
